@@ -271,6 +271,20 @@ CLAIMED["C02"] = (
     "DESIGN.md section 6, C02",
 )
 
+CLAIMED["C18"] = (
+    "Coq theorems over paths as component lists, for every directory, every number of recordings and every position of an "
+    "outside recording: stored path = path relative to the directory (and only such paths are stored), one recording outside "
+    "makes the whole conversion fail with ValueError, saving under A and loading under B maps A/x to B/x for every recording, "
+    "no directory = identity. Correspondence on all 8 collection types x directory depth 0-4 (unicode, spaces) x str/Path/"
+    "trailing slash x inside/outside/sibling-prefix/parent/relative recordings x load directory: every stored path, every "
+    "loaded Recording.path, the error class, and that no file is written on failure.",
+    "Trusted: Coq kernel/vm_compute; pathlib's parsing into parts (library contract); that each collection adapter threads "
+    "audio_dir to its recording adapter is established by the correspondence over all 8 types, not by a theorem; '..' "
+    "components are outside the generated domain.",
+    "Rocq/Coq proof + model/implementation correspondence by vm_compute",
+    "DESIGN.md section 6, C18",
+)
+
 NOT_YET = {}
 
 
